@@ -519,6 +519,23 @@ fn search_idl_tree(rng: &mut Rng, budget: usize) -> Option<Value> {
         if let Some(why) = run_idl_tree(&text, &expect) {
             return Some(json!({"kind":"idl_tree","text":text,"expect":expect,"layout":layout,"why":why}));
         }
+        // blank lines between comment lines are whitespace: a text and its copy with an empty line behind every comment line
+        // denote the same description, comments included (compared through the accessors: rt_dump)
+        if layout >= 2 {
+            let mut t1 = String::with_capacity(text.len() + 32);
+            for line in text.split_inclusive('\n') {
+                t1.push_str(line);
+                if line.trim_start().starts_with('#') && line.ends_with('\n') { t1.push_str(["\n", "\n\n", " \n", "\n\t\n"][rng.below(4)]); }
+            }
+            let (a, b) = (text.clone(), t1.clone());
+            let r = std::panic::catch_unwind(move || (zlink_core::idl::Interface::try_from(leak(a)).map(|i| rt_dump(&i)).map_err(|e| e.to_string()),
+                                                       zlink_core::idl::Interface::try_from(leak(b)).map(|i| rt_dump(&i)).map_err(|e| e.to_string())));
+            match r {
+                Ok((Ok(d0), Ok(d1))) if d0 == d1 => {}
+                Ok((d0, d1)) => return Some(json!({"kind":"idl_blank","text":text,"text_with_blank_lines":t1,"why":format!("an empty line behind a comment line changed the description:\n  without: {d0:?}\n  with:    {d1:?}")})),
+                Err(_) => return Some(json!({"kind":"idl_blank","text":text,"text_with_blank_lines":t1,"why":"parser panicked"})),
+            }
+        }
         // outside comments the grammar is ASCII: a legal text without comments with one non-ASCII character put anywhere
         // inside it (name, keyword, punctuation, gap) must be rejected - and never panic
         if layout <= 1 && text.len() > 12 {
@@ -606,7 +623,7 @@ fn search_idl(seed: u64, budget: usize) -> Option<Value> {
 // comments included (the crate's own PartialEq impls ignore comments); the parsed description must render to the same text.
 fn leak(s: String) -> &'static str { Box::leak(s.into_boxed_str()) }
 fn rt_comments(rng: &mut Rng, max: usize) -> Vec<String> {
-    (0..rng.below(max + 1)).map(|_| ["plain note", "", "a) note: x -> (y, z)", "na\u{ef}ve \u{2013} gr\u{fc}n", "TODO", "x  y"][rng.below(6)].to_string()).collect()
+    (0..rng.below(max + 1)).map(|_| ["plain note", "", "a) note: x -> (y, z)", "na\u{ef}ve \u{2013} gr\u{fc}n", "TODO", "x  y", "# Errors", "## Layout", "#1 first"][rng.below(9)].to_string()).collect()
 }
 fn rt_type(t: &GTy) -> zlink_core::idl::Type<'static> {
     use zlink_core::idl::{EnumVariant, Field, List, Type, TypeRef};
@@ -654,7 +671,8 @@ fn run_idl_rt(seed: u64, commented_variants: bool) -> Option<(String, String)> {
     for _ in 0..rng.below(5) {
         match rng.below(4) {
             0 => { let fs = fields(rng, 3); types.push(CustomType::from(CustomObject::new_owned(leak(g_type_name(rng)), fs, cm(rt_comments(rng, 2))))); }
-            1 => { let vs = (0..1 + rng.below(3)).map(|_| EnumVariant::new_owned(leak(g_field_name(rng)), if commented_variants && rng.below(2) == 0 { cm(rt_comments(rng, 2)) } else { vec![] })).collect::<Vec<_>>();
+            1 => { let nv = if rng.below(6) == 0 { 8 + rng.below(25) } else { 1 + rng.below(3) };   // now and then a long enum (a wide line)
+                   let vs = (0..nv).map(|_| EnumVariant::new_owned(leak(g_field_name(rng)), if commented_variants && rng.below(2) == 0 { cm(rt_comments(rng, 2)) } else { vec![] })).collect::<Vec<_>>();
                    types.push(CustomType::from(CustomEnum::new_owned(leak(g_type_name(rng)), vs, cm(rt_comments(rng, 2))))); }
             2 => { let (i, o) = (fields(rng, 3), fields(rng, 2)); methods.push(Method::new_owned(leak(g_type_name(rng)), i, o, cm(rt_comments(rng, 2)))); }
             _ => { let fs = fields(rng, 2); errors.push(Error::new_owned(leak(g_type_name(rng)), fs, cm(rt_comments(rng, 2)))); }
@@ -1220,6 +1238,17 @@ fn main() {
             match run_idl_rt(cs, cv) {
                 Some((text, why)) => { println!("rendered description:\n{text}\n{why}\nREPLAY: FAILS on the real code"); std::process::exit(1); }
                 None => println!("REPLAY: passes on the real code"),
+            }
+        }
+        Some("idl_blank") => {
+            std::panic::set_hook(Box::new(|_| {}));
+            let (a, b) = (w["text"].as_str().unwrap().to_string(), w["text_with_blank_lines"].as_str().unwrap().to_string());
+            let r = std::panic::catch_unwind(move || (zlink_core::idl::Interface::try_from(leak(a)).map(|i| rt_dump(&i)).map_err(|e| e.to_string()),
+                                                       zlink_core::idl::Interface::try_from(leak(b)).map(|i| rt_dump(&i)).map_err(|e| e.to_string())));
+            match r {
+                Ok((Ok(d0), Ok(d1))) if d0 == d1 => println!("REPLAY: passes on the real code"),
+                Ok((d0, d1)) => { println!("without blank lines: {d0:?}\nwith blank lines:    {d1:?}\nREPLAY: FAILS on the real code"); std::process::exit(1); }
+                Err(_) => { println!("parser panicked\nREPLAY: FAILS on the real code"); std::process::exit(1); }
             }
         }
         Some("idl_tree") => {
